@@ -821,6 +821,55 @@ theorem export_checksum_filter_reader (args : Args) (legacy legacy' : Bool) (kl 
       simp only [argsC] at e1 e2
       rw [e1, e2]
 
+section Encoder
+open TLX.Spec.Containers TLX.Props.C12
+
+theorem filterMap_filter_comm {α β : Type} (f : α → Option β) (k : β → Bool) (g : α → Bool)
+    (hg : ∀ a, g a = match f a with | some b => k b | none => true) (l : List α) :
+    (l.filter g).filterMap f = (l.filterMap f).filter k := by
+  induction l with
+  | nil => rfl
+  | cons a l ih =>
+    have hga := hg a
+    cases hf : f a with
+    | none =>
+      rw [hf] at hga
+      simp only [List.filter_cons, hga, if_true, List.filterMap_cons, hf, ih]
+    | some b =>
+      rw [hf] at hga
+      simp only at hga
+      cases hk : k b with
+      | true => simp only [List.filter_cons, hga, hk, if_true, List.filterMap_cons, hf, ih]
+      | false => simp only [List.filter_cons, hga, hk, Bool.false_eq_true, if_false, List.filterMap_cons, hf, ih]
+
+/-- an event of the capture that the `-c` run does not reject (everything but TCP / UDP frames with a wrong checksum) -/
+def evKept (v : Variant) (ev : Ev) : Bool :=
+  match scale v ev with
+  | some it => !itemRejected it
+  | none => true
+
+/-- **C11, whole program, file to file.** For the independent container encoder, ANY variant `v` (pcapng of either byte
+    order, any clock, decoration; libpcap µs / ns) and any event list `evs`: if the `-c` run reads the capture to the end
+    (`hok`; it does unless dpkt raises on a frame, a secrets block is not ASCII, or a `-c` length overflows), then
+
+      the run WITH `-c` on the capture  =  the run WITHOUT `-c` on the capture re-encoded without the rejected frames
+
+    — byte-identical output files, or the same abort of the writer. (`hwf'`: the reduced event list still fits the
+    variant's fixed-width fields — the per-event decoration is indexed by position.) -/
+theorem export_checksum_filter_file (args : Args) (kl : Option Keylog.Str) (v : Variant) (evs : List Ev)
+    (hwf : v.WF evs) (hwf' : v.WF (evs.filter (evKept v)))
+    (hok : ∃ X IS, go Keylog.srcHexClass true 0 (evs.filterMap (scale v)) = .ok (X, IS)) :
+    exportFile mask H P (argsC args true) v.isLegacy kl (encode v evs) =
+      exportFile mask H P (argsC args false) v.isLegacy kl (encode v (evs.filter (evKept v))) := by
+  have r1 := readPrefix_of_read _ _ _ (reader_roundtrip v evs hwf)
+  have r2 := readPrefix_of_read _ _ _ (reader_roundtrip v _ hwf')
+  have : (evs.filter (evKept v)).filterMap (scale v) = (evs.filterMap (scale v)).filter fun it => !itemRejected it :=
+    filterMap_filter_comm (scale v) (fun it => !itemRejected it) (evKept v) (fun ev => by unfold evKept; cases scale v ev <;> rfl) evs
+  rw [this] at r2
+  exact export_checksum_filter_reader mask H P args _ _ kl _ _ _ none r1 r2 hok
+
+end Encoder
+
 end C11
 
 end TLX.Props.ExportInputs2
